@@ -85,18 +85,29 @@ func (c *hbConn) recvLoop() {
 
 		if bytes.Equal(c.hb, buffer[:n]) {
 			atomic.AddUint32(&c.waiting, 1)
+			if err != nil {
+				c.Close()
+				return
+			}
 			continue
 		}
 
-		if err != nil {
+		if err != nil && n == 0 {
 			c.Close()
 			return
 		}
 
+		// Hand the message to the reader. A message that was returned
+		// together with a stream error is delivered with that error, so that
+		// the reader sees the data before the error.
 		timer := time.NewTimer(c.timeout)
 		select {
 		case c.recvCh <- errBytes{buffer[:n], err}:
 			timer.Stop()
+			if err != nil {
+				c.Close()
+				return
+			}
 			continue
 		case <-timer.C:
 			c.Close()
@@ -116,22 +127,32 @@ func (c *hbConn) Write(b []byte) (n int, err error) {
 }
 
 func (c *hbConn) Read(b []byte) (int, error) {
+	// Messages that were received before the connection closed are
+	// delivered before the close is reported.
+	select {
+	case readBytes := <-c.recvCh:
+		return deliver(b, readBytes)
+	default:
+	}
+
 	select {
 	case <-c.closed:
 		return 0, net.ErrClosed
 	case readBytes := <-c.recvCh:
-		if readBytes.err != nil {
-			return 0, readBytes.err
-		}
-
-		if len(b) < len(readBytes.b) {
-			return 0, ErrInsufficientBuffer
-		}
-
-		n := copy(b, readBytes.b)
-
-		return n, nil
+		return deliver(b, readBytes)
 	}
+}
+
+// deliver copies a received message into b and returns it together with the
+// error, if any, that the stream reported along with it.
+func deliver(b []byte, readBytes errBytes) (int, error) {
+	if len(b) < len(readBytes.b) {
+		return 0, ErrInsufficientBuffer
+	}
+
+	n := copy(b, readBytes.b)
+
+	return n, readBytes.err
 }
 
 func (c *hbConn) BufferedAmount() uint64 {
